@@ -25,9 +25,8 @@ def Unit.bytes : Unit → Bytes
 
 /-- position just after the first CR LF CR LF, if any -/
 def headEnd : Bytes → Nat → Option Nat
-  | 13 :: 10 :: 13 :: 10 :: _, i => some (i + 4)
-  | _ :: r, i => headEnd r (i + 1)
   | [], _ => none
+  | b :: r, i => if (b :: r).take 4 == [13, 10, 13, 10] then some (i + 4) else headEnd r (i + 1)
 
 def isDigit (b : UInt8) : Bool := 48 ≤ b && b ≤ 57
 
@@ -73,6 +72,19 @@ def nextUnit (s : Bytes) : Option (Unit × Bytes) :=
       | some h =>
         let total := h + contentLength (s.take h)
         if s.length < total then none else some (.response (s.take total), s.drop total)
+
+/-- a complete RTSP response: starts with the protocol token, has a header block ended by an empty
+    line, and is exactly as long as header block + Content-Length -/
+def wfResponse (raw : Bytes) : Bool :=
+  rtspPrefix.isPrefixOf raw &&
+    match headEnd raw 0 with
+    | some h => h + contentLength (raw.take h) == raw.length
+    | none => false
+
+/-- a complete unit: a frame whose payload fits the 16-bit length field, or a complete response -/
+def Unit.wf : Unit → Bool
+  | .frame _ p => decide (p.length < 65536)
+  | .response raw => wfResponse raw
 
 /-- parse a whole stream into units; `none` if some position is not the start of a complete unit -/
 def parseStream : Nat → Bytes → Option (List Unit)
